@@ -5,6 +5,7 @@ import itertools
 from fractions import Fraction as F
 
 import core
+from fns import big_shift_copies
 from adapters import Adapter
 from core import obs_list, q
 from fns import G, frs, unfr
@@ -139,6 +140,7 @@ def gen_density(tier, rng):
                    ([F(1), None, F(3)], [F(1), F(2)]), ([F(1), F(2)], [None, F(2), F(3)])]:
         cases.append(_dcase(rho, z, F(0), F(-1)))
         cases.append(_dcase(rho, z, None, None))
+    cases += big_shift_copies(cases, "rho", rng, 150 if tier == "quick" else 1500, lambda c: True)
     return cases
 
 
